@@ -243,13 +243,14 @@ func cmdCheck(args []string) int {
 			file := oblFile(outDir, j.o.Name)
 			script := j.rep.ex.Render(j.o)
 			writeFile(file, script)
-			j.o.Result = Solve(file, to, *tier == "thorough")
+			j.o.Result = Solve(file, to, *tier == "thorough", j.o.Kind == "requires-sat" || j.o.Kind == "reach")
 		}(j)
 	}
 	jwg.Wait()
 
 	known := loadKnown(filepath.Join(*verif, "known_findings.txt"))
 	violations := 0
+	covers, covered := 0, 0
 	discharged := 0
 	knownHits := 0
 	byBackend := map[string]int{}
@@ -286,13 +287,20 @@ func cmdCheck(args []string) int {
 		r := o.Result
 		solverTime += r.Seconds
 		ok := false
-		if o.Kind == "requires-sat" {
-			// cover: must be satisfiable
-			ok = r.Status == "sat"
-			if r.Status == "unsat" {
+		isCover := o.Kind == "requires-sat" || o.Kind == "reach"
+		if isCover {
+			// cover: must not be refutable (unsat = vacuous)
+			covers++
+			switch r.Status {
+			case "unsat":
 				r.Status = "vacuous"
-			} else if ok {
+			case "sat":
 				r.Status = "covered"
+				covered++
+				ok = true
+			default:
+				r.Status = "cover-undecided"
+				ok = true
 			}
 		} else {
 			ok = r.Status == "unsat"
@@ -301,6 +309,12 @@ func cmdCheck(args []string) int {
 			ok = false
 		}
 		oj = append(oj, oblJSON{Name: o.Name, Kind: o.Kind, Detail: o.Detail, Pos: o.Pos, Status: r.Status, Backend: r.Backend, Seconds: r.Seconds, File: r.File})
+		if ok && isCover {
+			if *verbose {
+				fmt.Printf("cover  %-70s %s %s %.2fs\n", o.Name, r.Status, r.Backend, r.Seconds)
+			}
+			continue
+		}
 		if ok {
 			discharged++
 			byBackend[r.Backend]++
@@ -336,7 +350,7 @@ func cmdCheck(args []string) int {
 			fmt.Printf("VIOLATION property=%s replay=%s no-failing-input-found\n", *prop, path)
 		}
 	}
-	total := len(jobs) + engineErrors
+	total := len(jobs) - covers + engineErrors
 	if total == 0 {
 		fmt.Printf("govc: no obligations generated for %s — refusing to report success\n", *prop)
 		fmt.Printf("VIOLATION property=%s replay=%s no-failing-input-found\n", *prop, writeReplay(replayDir, "no-obligations", map[string]interface{}{
@@ -373,6 +387,8 @@ func cmdCheck(args []string) int {
 			"obligations":              total,
 			"discharged":               discharged,
 			"known_findings":           knownHits,
+			"vacuity_covers":           covers,
+			"vacuity_covers_sat":       covered,
 			"checker_cmd":              fmt.Sprintf("govc check -prop %s -tier %s (per obligation: z3-new | z3 4.8.12 | cvc5 1.0.3 race, %ds)", *prop, *tier, to),
 			"trusted_base":             trustedBase,
 			"functions_under_contract": fnList,
